@@ -14,143 +14,143 @@ private theorem conv_i32_id (x : Int) (h : -2147483648 ≤ x ∧ x ≤ 214748364
 
 theorem from_int_u8_u8_correct (value size : Int) (h : IntTy.u8.InRange value) (hs : IntTy.u8.InRange size) :
     from_int_u8_u8 value size = .ok (fromIntSpec size value) := by
-  simp only [from_int_u8_u8]
+  gen_unfold_from_int
   c06_norm
   c06_finish
 
 theorem from_int_u8_u16_correct (value size : Int) (h : IntTy.u16.InRange value) (hs : IntTy.u8.InRange size) :
     from_int_u8_u16 value size = .ok (fromIntSpec size value) := by
-  simp only [from_int_u8_u16]
+  gen_unfold_from_int
   c06_norm
   c06_finish
 
 theorem from_int_u8_u32_correct (value size : Int) (h : IntTy.u32.InRange value) (hs : IntTy.u8.InRange size) :
     from_int_u8_u32 value size = .ok (fromIntSpec size value) := by
-  simp only [from_int_u8_u32]
+  gen_unfold_from_int
   c06_norm
   c06_finish
 
 theorem from_int_u8_u64_correct (value size : Int) (h : IntTy.u64.InRange value) (hs : IntTy.u8.InRange size) :
     from_int_u8_u64 value size = .ok (fromIntSpec size value) := by
-  simp only [from_int_u8_u64]
+  gen_unfold_from_int
   c06_norm
   c06_finish
 
 theorem from_int_u16_u8_correct (value size : Int) (h : IntTy.u8.InRange value) (hs : IntTy.u16.InRange size) :
     from_int_u16_u8 value size = .ok (fromIntSpec size value) := by
-  simp only [from_int_u16_u8]
+  gen_unfold_from_int
   c06_norm
   c06_finish
 
 theorem from_int_u16_u16_correct (value size : Int) (h : IntTy.u16.InRange value) (hs : IntTy.u16.InRange size) :
     from_int_u16_u16 value size = .ok (fromIntSpec size value) := by
-  simp only [from_int_u16_u16]
+  gen_unfold_from_int
   c06_norm
   c06_finish
 
 theorem from_int_u16_u32_correct (value size : Int) (h : IntTy.u32.InRange value) (hs : IntTy.u16.InRange size) :
     from_int_u16_u32 value size = .ok (fromIntSpec size value) := by
-  simp only [from_int_u16_u32]
+  gen_unfold_from_int
   c06_norm
   c06_finish
 
 theorem from_int_u16_u64_correct (value size : Int) (h : IntTy.u64.InRange value) (hs : IntTy.u16.InRange size) :
     from_int_u16_u64 value size = .ok (fromIntSpec size value) := by
-  simp only [from_int_u16_u64]
+  gen_unfold_from_int
   c06_norm
   c06_finish
 
 theorem from_int_u32_u8_correct (value size : Int) (h : IntTy.u8.InRange value) (hs : IntTy.u32.InRange size) :
     from_int_u32_u8 value size = .ok (fromIntSpec size value) := by
-  simp only [from_int_u32_u8]
+  gen_unfold_from_int
   c06_norm
   c06_finish
 
 theorem from_int_u32_u16_correct (value size : Int) (h : IntTy.u16.InRange value) (hs : IntTy.u32.InRange size) :
     from_int_u32_u16 value size = .ok (fromIntSpec size value) := by
-  simp only [from_int_u32_u16]
+  gen_unfold_from_int
   c06_norm
   c06_finish
 
 theorem from_int_u32_u32_correct (value size : Int) (h : IntTy.u32.InRange value) (hs : IntTy.u32.InRange size) :
     from_int_u32_u32 value size = .ok (fromIntSpec size value) := by
-  simp only [from_int_u32_u32]
+  gen_unfold_from_int
   c06_norm
   c06_finish
 
 theorem from_int_u32_u64_correct (value size : Int) (h : IntTy.u64.InRange value) (hs : IntTy.u32.InRange size) :
     from_int_u32_u64 value size = .ok (fromIntSpec size value) := by
-  simp only [from_int_u32_u64]
+  gen_unfold_from_int
   c06_norm
   c06_finish
 
 theorem from_int_u64_u8_correct (value size : Int) (h : IntTy.u8.InRange value) (hs : IntTy.u64.InRange size) :
     from_int_u64_u8 value size = .ok (fromIntSpec size value) := by
-  simp only [from_int_u64_u8]
+  gen_unfold_from_int
   c06_norm
   c06_finish
 
 theorem from_int_u64_u16_correct (value size : Int) (h : IntTy.u16.InRange value) (hs : IntTy.u64.InRange size) :
     from_int_u64_u16 value size = .ok (fromIntSpec size value) := by
-  simp only [from_int_u64_u16]
+  gen_unfold_from_int
   c06_norm
   c06_finish
 
 theorem from_int_u64_u32_correct (value size : Int) (h : IntTy.u32.InRange value) (hs : IntTy.u64.InRange size) :
     from_int_u64_u32 value size = .ok (fromIntSpec size value) := by
-  simp only [from_int_u64_u32]
+  gen_unfold_from_int
   c06_norm
   c06_finish
 
 theorem from_int_u64_u64_correct (value size : Int) (h : IntTy.u64.InRange value) (hs : IntTy.u64.InRange size) :
     from_int_u64_u64 value size = .ok (fromIntSpec size value) := by
-  simp only [from_int_u64_u64]
+  gen_unfold_from_int
   c06_norm
   c06_finish
 
 /-- math::div: the C++ quotient (truncated towards zero) whenever it is representable -/
 theorem div_u32_correct (a b : Int) (ha : IntTy.u32.InRange a) (hb : IntTy.u32.InRange b) (hnz : b ≠ 0)
     (hr : IntTy.u32.InRange (Int.tdiv a b)) : div_u32 a b = .ok (some (Int.tdiv a b)) := by
-  simp only [div_u32]
+  gen_unfold_div
   c06_norm
   generalize Int.tdiv a b = q at *
   c06_finish
 
 theorem div_u32_zero (a : Int) : div_u32 a 0 = .ok none := by
-  simp [div_u32]; rfl
+  gen_unfold_div; c06_zero
 
 /-- math::div: the C++ quotient (truncated towards zero) whenever it is representable -/
 theorem div_i32_correct (a b : Int) (ha : IntTy.i32.InRange a) (hb : IntTy.i32.InRange b) (hnz : b ≠ 0)
     (hr : IntTy.i32.InRange (Int.tdiv a b)) : div_i32 a b = .ok (some (Int.tdiv a b)) := by
-  simp only [div_i32]
+  gen_unfold_div
   c06_norm
   generalize Int.tdiv a b = q at *
   c06_finish
 
 theorem div_i32_zero (a : Int) : div_i32 a 0 = .ok none := by
-  simp [div_i32]; rfl
+  gen_unfold_div; c06_zero
 
 /-- math::div: the C++ quotient (truncated towards zero) whenever it is representable -/
 theorem div_u64_correct (a b : Int) (ha : IntTy.u64.InRange a) (hb : IntTy.u64.InRange b) (hnz : b ≠ 0)
     (hr : IntTy.u64.InRange (Int.tdiv a b)) : div_u64 a b = .ok (some (Int.tdiv a b)) := by
-  simp only [div_u64]
+  gen_unfold_div
   c06_norm
   generalize Int.tdiv a b = q at *
   c06_finish
 
 theorem div_u64_zero (a : Int) : div_u64 a 0 = .ok none := by
-  simp [div_u64]; rfl
+  gen_unfold_div; c06_zero
 
 /-- math::div: the C++ quotient (truncated towards zero) whenever it is representable -/
 theorem div_i64_correct (a b : Int) (ha : IntTy.i64.InRange a) (hb : IntTy.i64.InRange b) (hnz : b ≠ 0)
     (hr : IntTy.i64.InRange (Int.tdiv a b)) : div_i64 a b = .ok (some (Int.tdiv a b)) := by
-  simp only [div_i64]
+  gen_unfold_div
   c06_norm
   generalize Int.tdiv a b = q at *
   c06_finish
 
 theorem div_i64_zero (a : Int) : div_i64 a 0 = .ok none := by
-  simp [div_i64]; rfl
+  gen_unfold_div; c06_zero
 
 /-- math::mod (unsigned): the remainder, `none` for a zero divisor -/
 theorem mod_u8_correct (a b : Int) (ha : IntTy.u8.InRange a) (hb : IntTy.u8.InRange b) (hnz : b ≠ 0) :
@@ -163,7 +163,7 @@ theorem mod_u8_correct (a b : Int) (ha : IntTy.u8.InRange a) (hb : IntTy.u8.InRa
   have h3 : 0 ≤ Int.tdiv a b := Int.tdiv_nonneg ha0 (Int.le_of_lt hb0)
   have h4 : Int.tdiv a b ≤ a := by
     rw [Int.tdiv_eq_ediv_of_nonneg ha0]; exact Int.ediv_le_self b ha0
-  simp only [mod_u8, mod_u8_2]
+  gen_unfold_mod
   try rw [conv_i32_id a (by c06_norm; omega), conv_i32_id b (by c06_norm; omega)]
   c06_norm
   rw [e1]
@@ -172,7 +172,7 @@ theorem mod_u8_correct (a b : Int) (ha : IntTy.u8.InRange a) (hb : IntTy.u8.InRa
   c06_finish
 
 theorem mod_u8_zero (a : Int) : mod_u8 a 0 = .ok none := by
-  simp [mod_u8]; rfl
+  gen_unfold_mod; c06_zero
 
 /-- math::mod (unsigned): the remainder, `none` for a zero divisor -/
 theorem mod_u16_correct (a b : Int) (ha : IntTy.u16.InRange a) (hb : IntTy.u16.InRange b) (hnz : b ≠ 0) :
@@ -185,7 +185,7 @@ theorem mod_u16_correct (a b : Int) (ha : IntTy.u16.InRange a) (hb : IntTy.u16.I
   have h3 : 0 ≤ Int.tdiv a b := Int.tdiv_nonneg ha0 (Int.le_of_lt hb0)
   have h4 : Int.tdiv a b ≤ a := by
     rw [Int.tdiv_eq_ediv_of_nonneg ha0]; exact Int.ediv_le_self b ha0
-  simp only [mod_u16, mod_u16_2]
+  gen_unfold_mod
   try rw [conv_i32_id a (by c06_norm; omega), conv_i32_id b (by c06_norm; omega)]
   c06_norm
   rw [e1]
@@ -194,7 +194,7 @@ theorem mod_u16_correct (a b : Int) (ha : IntTy.u16.InRange a) (hb : IntTy.u16.I
   c06_finish
 
 theorem mod_u16_zero (a : Int) : mod_u16 a 0 = .ok none := by
-  simp [mod_u16]; rfl
+  gen_unfold_mod; c06_zero
 
 /-- math::mod (unsigned): the remainder, `none` for a zero divisor -/
 theorem mod_u32_correct (a b : Int) (ha : IntTy.u32.InRange a) (hb : IntTy.u32.InRange b) (hnz : b ≠ 0) :
@@ -207,7 +207,7 @@ theorem mod_u32_correct (a b : Int) (ha : IntTy.u32.InRange a) (hb : IntTy.u32.I
   have h3 : 0 ≤ Int.tdiv a b := Int.tdiv_nonneg ha0 (Int.le_of_lt hb0)
   have h4 : Int.tdiv a b ≤ a := by
     rw [Int.tdiv_eq_ediv_of_nonneg ha0]; exact Int.ediv_le_self b ha0
-  simp only [mod_u32, mod_u32_2]
+  gen_unfold_mod
   try rw [conv_i32_id a (by c06_norm; omega), conv_i32_id b (by c06_norm; omega)]
   c06_norm
   rw [e1]
@@ -216,7 +216,7 @@ theorem mod_u32_correct (a b : Int) (ha : IntTy.u32.InRange a) (hb : IntTy.u32.I
   c06_finish
 
 theorem mod_u32_zero (a : Int) : mod_u32 a 0 = .ok none := by
-  simp [mod_u32]; rfl
+  gen_unfold_mod; c06_zero
 
 /-- math::mod (unsigned): the remainder, `none` for a zero divisor -/
 theorem mod_u64_correct (a b : Int) (ha : IntTy.u64.InRange a) (hb : IntTy.u64.InRange b) (hnz : b ≠ 0) :
@@ -229,7 +229,7 @@ theorem mod_u64_correct (a b : Int) (ha : IntTy.u64.InRange a) (hb : IntTy.u64.I
   have h3 : 0 ≤ Int.tdiv a b := Int.tdiv_nonneg ha0 (Int.le_of_lt hb0)
   have h4 : Int.tdiv a b ≤ a := by
     rw [Int.tdiv_eq_ediv_of_nonneg ha0]; exact Int.ediv_le_self b ha0
-  simp only [mod_u64, mod_u64_2]
+  gen_unfold_mod
   try rw [conv_i32_id a (by c06_norm; omega), conv_i32_id b (by c06_norm; omega)]
   c06_norm
   rw [e1]
@@ -238,11 +238,12 @@ theorem mod_u64_correct (a b : Int) (ha : IntTy.u64.InRange a) (hb : IntTy.u64.I
   c06_finish
 
 theorem mod_u64_zero (a : Int) : mod_u64 a 0 = .ok none := by
-  simp [mod_u64]; rfl
+  gen_unfold_mod; c06_zero
 
 theorem clamp_u8_correct (v lo hi : Int) (hv : IntTy.u8.InRange v) (hl : IntTy.u8.InRange lo) (hh : IntTy.u8.InRange hi) :
     clamp_u8 v lo hi = .ok (clampSpec v lo hi) := by
-  simp only [clamp_u8, Int.max_def, Int.min_def]
+  gen_unfold_clamp
+  try simp only [Int.max_def, Int.min_def]
   c06_norm
   simp only [Int.max_def, Int.min_def]
   c06_finish
@@ -251,13 +252,14 @@ theorem clamp_u8_correct (v lo hi : Int) (hv : IntTy.u8.InRange v) (hl : IntTy.u
 theorem diff_u8_correct (a b : Int) (ha : IntTy.u8.InRange a) (hb : IntTy.u8.InRange b)
     (hr : IntTy.u8.InRange (if a < b then b - a else a - b)) :
     diff_u8 a b = .ok (if a < b then b - a else a - b) := by
-  simp only [diff_u8, diff_u8_2]
+  gen_unfold_diff
   c06_norm
   c06_finish
 
 theorem clamp_u16_correct (v lo hi : Int) (hv : IntTy.u16.InRange v) (hl : IntTy.u16.InRange lo) (hh : IntTy.u16.InRange hi) :
     clamp_u16 v lo hi = .ok (clampSpec v lo hi) := by
-  simp only [clamp_u16, Int.max_def, Int.min_def]
+  gen_unfold_clamp
+  try simp only [Int.max_def, Int.min_def]
   c06_norm
   simp only [Int.max_def, Int.min_def]
   c06_finish
@@ -266,13 +268,14 @@ theorem clamp_u16_correct (v lo hi : Int) (hv : IntTy.u16.InRange v) (hl : IntTy
 theorem diff_u16_correct (a b : Int) (ha : IntTy.u16.InRange a) (hb : IntTy.u16.InRange b)
     (hr : IntTy.u16.InRange (if a < b then b - a else a - b)) :
     diff_u16 a b = .ok (if a < b then b - a else a - b) := by
-  simp only [diff_u16, diff_u16_2]
+  gen_unfold_diff
   c06_norm
   c06_finish
 
 theorem clamp_u32_correct (v lo hi : Int) (hv : IntTy.u32.InRange v) (hl : IntTy.u32.InRange lo) (hh : IntTy.u32.InRange hi) :
     clamp_u32 v lo hi = .ok (clampSpec v lo hi) := by
-  simp only [clamp_u32, Int.max_def, Int.min_def]
+  gen_unfold_clamp
+  try simp only [Int.max_def, Int.min_def]
   c06_norm
   simp only [Int.max_def, Int.min_def]
   c06_finish
@@ -281,13 +284,14 @@ theorem clamp_u32_correct (v lo hi : Int) (hv : IntTy.u32.InRange v) (hl : IntTy
 theorem diff_u32_correct (a b : Int) (ha : IntTy.u32.InRange a) (hb : IntTy.u32.InRange b)
     (hr : IntTy.u32.InRange (if a < b then b - a else a - b)) :
     diff_u32 a b = .ok (if a < b then b - a else a - b) := by
-  simp only [diff_u32, diff_u32_2]
+  gen_unfold_diff
   c06_norm
   c06_finish
 
 theorem clamp_u64_correct (v lo hi : Int) (hv : IntTy.u64.InRange v) (hl : IntTy.u64.InRange lo) (hh : IntTy.u64.InRange hi) :
     clamp_u64 v lo hi = .ok (clampSpec v lo hi) := by
-  simp only [clamp_u64, Int.max_def, Int.min_def]
+  gen_unfold_clamp
+  try simp only [Int.max_def, Int.min_def]
   c06_norm
   simp only [Int.max_def, Int.min_def]
   c06_finish
@@ -296,13 +300,14 @@ theorem clamp_u64_correct (v lo hi : Int) (hv : IntTy.u64.InRange v) (hl : IntTy
 theorem diff_u64_correct (a b : Int) (ha : IntTy.u64.InRange a) (hb : IntTy.u64.InRange b)
     (hr : IntTy.u64.InRange (if a < b then b - a else a - b)) :
     diff_u64 a b = .ok (if a < b then b - a else a - b) := by
-  simp only [diff_u64, diff_u64_2]
+  gen_unfold_diff
   c06_norm
   c06_finish
 
 theorem clamp_i8_correct (v lo hi : Int) (hv : IntTy.i8.InRange v) (hl : IntTy.i8.InRange lo) (hh : IntTy.i8.InRange hi) :
     clamp_i8 v lo hi = .ok (clampSpec v lo hi) := by
-  simp only [clamp_i8, Int.max_def, Int.min_def]
+  gen_unfold_clamp
+  try simp only [Int.max_def, Int.min_def]
   c06_norm
   simp only [Int.max_def, Int.min_def]
   c06_finish
@@ -311,13 +316,14 @@ theorem clamp_i8_correct (v lo hi : Int) (hv : IntTy.i8.InRange v) (hl : IntTy.i
 theorem diff_i8_correct (a b : Int) (ha : IntTy.i8.InRange a) (hb : IntTy.i8.InRange b)
     (hr : IntTy.i8.InRange (if a < b then b - a else a - b)) :
     diff_i8 a b = .ok (if a < b then b - a else a - b) := by
-  simp only [diff_i8, diff_i8_2]
+  gen_unfold_diff
   c06_norm
   c06_finish
 
 theorem clamp_i16_correct (v lo hi : Int) (hv : IntTy.i16.InRange v) (hl : IntTy.i16.InRange lo) (hh : IntTy.i16.InRange hi) :
     clamp_i16 v lo hi = .ok (clampSpec v lo hi) := by
-  simp only [clamp_i16, Int.max_def, Int.min_def]
+  gen_unfold_clamp
+  try simp only [Int.max_def, Int.min_def]
   c06_norm
   simp only [Int.max_def, Int.min_def]
   c06_finish
@@ -326,13 +332,14 @@ theorem clamp_i16_correct (v lo hi : Int) (hv : IntTy.i16.InRange v) (hl : IntTy
 theorem diff_i16_correct (a b : Int) (ha : IntTy.i16.InRange a) (hb : IntTy.i16.InRange b)
     (hr : IntTy.i16.InRange (if a < b then b - a else a - b)) :
     diff_i16 a b = .ok (if a < b then b - a else a - b) := by
-  simp only [diff_i16, diff_i16_2]
+  gen_unfold_diff
   c06_norm
   c06_finish
 
 theorem clamp_i32_correct (v lo hi : Int) (hv : IntTy.i32.InRange v) (hl : IntTy.i32.InRange lo) (hh : IntTy.i32.InRange hi) :
     clamp_i32 v lo hi = .ok (clampSpec v lo hi) := by
-  simp only [clamp_i32, Int.max_def, Int.min_def]
+  gen_unfold_clamp
+  try simp only [Int.max_def, Int.min_def]
   c06_norm
   simp only [Int.max_def, Int.min_def]
   c06_finish
@@ -341,13 +348,14 @@ theorem clamp_i32_correct (v lo hi : Int) (hv : IntTy.i32.InRange v) (hl : IntTy
 theorem diff_i32_correct (a b : Int) (ha : IntTy.i32.InRange a) (hb : IntTy.i32.InRange b)
     (hr : IntTy.i32.InRange (if a < b then b - a else a - b)) :
     diff_i32 a b = .ok (if a < b then b - a else a - b) := by
-  simp only [diff_i32, diff_i32_2]
+  gen_unfold_diff
   c06_norm
   c06_finish
 
 theorem clamp_i64_correct (v lo hi : Int) (hv : IntTy.i64.InRange v) (hl : IntTy.i64.InRange lo) (hh : IntTy.i64.InRange hi) :
     clamp_i64 v lo hi = .ok (clampSpec v lo hi) := by
-  simp only [clamp_i64, Int.max_def, Int.min_def]
+  gen_unfold_clamp
+  try simp only [Int.max_def, Int.min_def]
   c06_norm
   simp only [Int.max_def, Int.min_def]
   c06_finish
@@ -356,7 +364,7 @@ theorem clamp_i64_correct (v lo hi : Int) (hv : IntTy.i64.InRange v) (hl : IntTy
 theorem diff_i64_correct (a b : Int) (ha : IntTy.i64.InRange a) (hb : IntTy.i64.InRange b)
     (hr : IntTy.i64.InRange (if a < b then b - a else a - b)) :
     diff_i64 a b = .ok (if a < b then b - a else a - b) := by
-  simp only [diff_i64, diff_i64_2]
+  gen_unfold_diff
   c06_norm
   c06_finish
 
